@@ -76,7 +76,7 @@ def pol_consts(pdev=(), maxops=5, nf=3, params="MCAll", weights="MCWeights"):
 # TLC jobs, run concurrently (each in its own work directory)
 
 class Job:
-    def __init__(self, name, module, consts, invs=(), props=(), spec=None, workers=1, dump=False, timeout=1500,
+    def __init__(self, name, module, consts, invs=(), props=(), spec=None, workers=1, dump=False, timeout=3000,
                  count=True, note="", expect=None):
         self.name, self.module, self.consts, self.invs, self.props = name, module, consts, list(invs), list(props)
         self.spec, self.workers, self.dump, self.timeout = spec, workers, dump, timeout
@@ -120,11 +120,13 @@ def model_check(chk: Check, tier):
     if quick:
         jobs.append(Job("pipe server Dev={} N=3", "QueuePipe.tla", pipe_consts(), PIPE_INVS, workers=big))
     else:
-        jobs.append(Job("pipe server Dev={} N=3 ticks 0..2 svc 0..2 cap 1,2,Inf", "QueuePipe.tla",
-                        pipe_consts(caps=(1, 2, INF), ticks=(0, 1, 2), svcs=(0, 1, 2)), PIPE_INVS, workers=big,
-                        timeout=3000))
+        jobs.append(Job("pipe server Dev={} N=3 ticks 0..2 svc 0..2", "QueuePipe.tla",
+                        pipe_consts(caps=(1, INF), ticks=(0, 1, 2), svcs=(0, 1, 2)), PIPE_INVS, workers=big,
+                        timeout=7000))
+        jobs.append(Job("pipe server Dev={} N=3 cap 2", "QueuePipe.tla",
+                        pipe_consts(caps=(2,), svcs=(0, 1, 2)), PIPE_INVS, workers=mid, timeout=7000))
         jobs.append(Job("pipe server Dev={} N=4", "QueuePipe.tla",
-                        pipe_consts(nitems=(4,), hops=(0, 2), caps=(2, INF)), PIPE_INVS, workers=big, timeout=3000))
+                        pipe_consts(nitems=(4,), hops=(0, 2), caps=(2, INF)), PIPE_INVS, workers=big, timeout=7000))
         jobs.append(Job("pipe server liveness (Settles)", "QueuePipe.tla",
                         pipe_consts(nitems=(2,), caps=(1, INF)), [], props=["Settles"], spec="FairSpec", workers=1))
     jobs.append(Job("pipe shifted Dev={} N=3", "QueuePipe.tla",
@@ -198,7 +200,7 @@ def validate(traces, dev, label, parallel=4):
         f = wd / "traces.json"
         slim = [{kk: v for kk, v in t.items() if kk not in ("wk", "meta")} for t in part]
         f.write_text(json.dumps(slim, separators=(",", ":")))
-        res = tlc.run(SPEC / "QueueTrace.tla", cfg, label=lab, workers=1, timeout=3000, env={"TRACE_FILE": str(f)})
+        res = tlc.run(SPEC / "QueueTrace.tla", cfg, label=lab, workers=1, timeout=7000, env={"TRACE_FILE": str(f)})
         got, parts3 = {}, {"V": {}, "M": {}, "Q": {}}
         for v in res.printed:
             if isinstance(v, tuple) and len(v) == 4 and v[0] in parts3:
@@ -524,7 +526,7 @@ def real_runs(chk, tier, rng, jobs, ascode):
 def judge(chk, traces, meta, ascode, cex=None, second_pass=True):
     cex = cex or {}
     verdicts, results = validate(traces, ascode, "C08_trace" if second_pass else "C08_trace2",
-                                 parallel=max(1, min(6, tlc.DEFAULT_WORKERS // 2)))
+                                 parallel=max(1, min(8, tlc.DEFAULT_WORKERS // 2)))
     for r in results:
         chk.add_tlc("QueueTrace batch", r, note="trace validation: contract on the observed log + model comparison")
     if second_pass:
